@@ -473,6 +473,11 @@ impl EventBuffer {
             if let Some(record) = self.events.remove_first(T::is_type) {
                 T::decrement_type(&mut self.total.types);
                 self.total.classes.decrement(record.class);
+                if record.state.get() == EventState::Written {
+                    // the discarded event was written to a response that is still awaiting
+                    // confirmation, so it must no longer be counted as written either
+                    self.written.decrement(record);
+                }
                 self.is_overflown = true;
                 Err(InsertError::Overflow {
                     created: id,
